@@ -15,7 +15,7 @@
      written name d         the last of them (0 if none) *)
 From Coq Require Import QArith List String.
 From QV.model Require Import C12_Model.
-From QV.proof Require Import C12_Proofs.
+From QV.proof Require Import C12_Proofs C12_Proofs_Seq.
 Import ListNotations.
 Local Open Scope string_scope.
 Local Open Scope list_scope.
@@ -84,3 +84,43 @@ Example C12_both_given_last_wins :
   validate [("C10", VNum (5 # 1)); ("defocus", VNum (100 # 1))] = Ok [("C10", (-100) # 1)] /\
   standardize [("defocus", VNum (100 # 1)); ("C10", VNum (5 # 1))] = Ok [("C10", 5 # 1)].
 Proof. split; vm_compute; reflexivity. Qed.
+
+(* ================================================================================================
+   Round 3: the probe-params setter assigned SEVERAL times on one object.
+     assign mo st params     one `obj.probe_params = params` on an object storing st:
+                             params["aberration_coefs"] := standardized, st' = DEFAULT | st | params
+     assign_all mo st hist   a history of assignments (one that raises leaves the object unchanged)
+     stored_coef st name     obj.probe_params["aberration_coefs"].get(name, 0.0)
+   NoDup (map fst params): a Python dictionary has unique keys. *)
+
+(* whatever the object held before, every coefficient read after an accepted assignment is the value
+   the last item of THAT dictionary assigns to it — 'defocus' entering as C10 = -defocus *)
+Theorem C12_setter_sequence_meaning :
+  forall (mo : option nat) (st : pydict) (history : list pydict) (params st' : pydict) (name : string),
+    NoDup (map fst params) ->
+    assign mo (assign_all mo st history) params = Ok st' ->
+    stored_coef (assign_all mo st (history ++ [params])) name = written name params.
+Proof. exact assign_all_last. Qed.
+Print Assumptions C12_setter_sequence_meaning.
+
+(* two objects with different pasts agree after the same accepted assignment, and whether an
+   assignment is accepted does not depend on the past *)
+Theorem C12_setter_history_independent :
+  forall (mo : option nat) (st1 st2 params : pydict),
+    NoDup (map fst params) ->
+    ((exists s1, assign mo st1 params = Ok s1) <-> (exists s2, assign mo st2 params = Ok s2)) /\
+    (forall s1 s2 name, assign mo st1 params = Ok s1 -> assign mo st2 params = Ok s2 ->
+                        stored_coef s1 name = stored_coef s2 name).
+Proof.
+  exact (fun mo st1 st2 params Hnd =>
+           conj (iff_trans (assign_accepts mo st1 params) (iff_sym (assign_accepts mo st2 params)))
+                (fun s1 s2 name H1 H2 => assign_history_independent mo st1 st2 params s1 s2 name Hnd H1 H2)).
+Qed.
+Print Assumptions C12_setter_history_independent.
+
+(* non-vacuity: the scenario of the seeded change C12-b — an object configured with C10 = -250 is
+   re-focused with defocus = 100: the stored C10 is -100, not the stale -250 *)
+Example C12_nonvacuous_setter_sequence :
+  stored_coef (assign_all (Some 5%nat) default_probe_params
+                 [[("C10", VNum ((-250) # 1))]; [("defocus", VNum (100 # 1))]]) "C10" == (-100) # 1.
+Proof. vm_compute. reflexivity. Qed.
